@@ -549,6 +549,25 @@ func randomSystemHistory(r *rand.Rand, nops int) []SysAct {
 		}
 		h = append(h, SysAct{A: "Plain", C: outer}, SysAct{A: "Frag", F: 1, C: outer})
 	}
+	if r.Intn(40) == 0 {
+		// depth: a value nested several hundred levels deep (a call whose argument is a call whose argument is ...) is
+		// rendered with a File between two renders of a small statement with the same File
+		a := newCell()
+		h = append(h, SysAct{A: "NewId", N: fresh()})
+		h = append(h, SysAct{A: "AppDot", C: a, N: fresh()})
+		h = append(h, SysAct{A: "Frag", F: 1, C: a}, SysAct{A: "Plain", C: a})
+		inner := newCell()
+		h = append(h, SysAct{A: "NewId", N: fresh()})
+		for i := 0; i < 280+r.Intn(60); i++ {
+			o := newCell()
+			h = append(h, SysAct{A: "NewId", N: fresh()})
+			addReach(o, inner)
+			h = append(h, SysAct{A: "AppGroup", C: o, N: []string{"call", "index"}[r.Intn(2)], Refs: []int{inner}})
+			inner = o
+		}
+		h = append(h, SysAct{A: "Frag", F: 1, C: inner}, SysAct{A: "Plain", C: inner})
+		h = append(h, SysAct{A: "Frag", F: 1, C: a}, SysAct{A: "Plain", C: a})
+	}
 	if r.Intn(4) == 0 {
 		// a failing render in between: a statement is rendered on its own, then another statement that references a path
 		// with the same base name FAILS to format (two adjacent identifiers), then the first is rendered again - the
